@@ -3,14 +3,16 @@ tables shared by the operators, each a finite function of JoinType (x JoinSide),
 bounded by the reference join model."""
 from jt import *
 
-TECHNIQUE = 'finite-domain constant propagation over MIR (A1) + reference join model bounds + cross-table laws'
+TECHNIQUE = 'finite-domain constant propagation over MIR (A1) + reference join model bounds + cross-table laws; state-machine extraction (transitions with path conditions) and finaliser-bypass contradiction rule'
 EXPLANATION = ('Exhaustive extraction of the join-type decision tables used by the physical join operators '
                '(need_produce_result_in_final, need_produce_right_in_final, symmetric-hash need_to_produce_result_in_final, '
                'piecewise-merge need_produce_result_in_final / existence predicates, empty_build_side_produces_empty_result, '
                'empty_map_produces_empty_result, probe_side tables, build_join_schema column-side selection) and comparison '
                'with bounds derived from a brute-force relational model: types whose output depends on unmatched build rows '
                'MUST be in the final set, types whose output is produced per probe row MUST NOT; empty-side short-circuits '
-               'only where the model result is empty; symmetric table == asymmetric table under negate+swap. '
+               'only where the model result is empty; symmetric table == asymmetric table under negate+swap. Finaliser bypass: in a join stream state machine with a '
+               'finaliser state (NestedLoopJoinStream: EmitGlobalRightUnmatched; terminal / finaliser states and the condition under which the finaliser is entered '
+               'are derived from the code) no handler jumps to the terminal state on a path that does not exclude that condition. '
                'Hashing, batching, filters, bitmaps and cursors are not decided.')
 ASSUMPTIONS = ['reference model in oracles/joins.py is SQL join semantics',
                'build side = left for HashJoin/NLJ/PWMJ (the operators\' documented convention)']
@@ -147,16 +149,51 @@ def run(ctx):
                 ctx.ok('probe-side', inst, sample={'fn': fnp, 'jt': jt, 'probe': v.name})
     check_build_join_schema(ctx)
     # selftest
+    finaliser_bypass(ctx)
     st = ctx.st
     import common
     probe = common.Ctx(ctx.pid, ctx.tier, st, st, {})
     probe.known = []
+    import statemach
+    statemach.check(probe, st, 'dfscan_selftest::machine::GoodStream', rule='st-fin')
+    statemach.check(probe, st, 'dfscan_selftest::machine::BadStream', rule='st-fin')
+    ctx.selftest('finaliser-bypass reports a refill handler that jumps to Done while the global emission is still owed (BadStream), silent on the guarded version (GoodStream)',
+                 sorted(v['key'] for v in probe.viol if v['rule'] == 'st-fin') == ['st-fin|BadStream: Fill -> Done in handle_fill'])
     tab = {}
     rec = st.fn('dfscan_selftest::tables::bad_need_produce_result_in_final')
     for jtv in enum_domain(st, 'dfscan_selftest::tables::JoinType'):
         tab[jtv.name] = single(Explorer(st).run(rec, [jtv]))
     bad = check_final_table(probe, 'st', 'dfscan_selftest::tables::bad_need_produce_result_in_final', 0, tab, facts=st)
     ctx.selftest('final-table bound detects LeftAnti missing from the final set', bad > 0)
+
+
+def finaliser_bypass(ctx):
+    """join stream state machines of the dispatcher + handlers shape that have a finaliser state (NestedLoopJoinStream: EmitGlobalRightUnmatched):
+    no handler jumps to the terminal state while the condition under which the finaliser is entered elsewhere is not excluded (rules/statemach.py)"""
+    import statemach
+    f = ctx.facts
+    n = 0
+    for p, a in sorted(f.adts.items()):
+        if a.get('ext') or a.get('kind') != 'struct' or not p.startswith('datafusion_physical_plan::joins::'):
+            continue
+        fl = [x for x in a['variants'][0]['fields'] if x[0] == 'state']
+        if not fl or f.adts.get(fl[0][1], {}).get('kind') != 'enum':
+            continue
+        # cheap shape prefilter on the callee index: some method of the struct calls at least four sibling methods
+        sib = [d for d in f.fn_index if (d.startswith(p + '::') or d.startswith('<' + p + ' as ')) and '{closure' not in d]
+        if not any(len(set(c for c in f.callees.get(d, ()) if c in sib and c != d)) >= 4 for d in sib):
+            continue
+        try:
+            m = statemach.analyse(f, p)
+        except Undecidable as ex:
+            ctx.skip('finaliser-bypass', p, 'state machine not summarised within the budget (%s)' % ex)
+            continue
+        if not m or not m['T'] or not m['F']:
+            ctx.skip('finaliser-bypass', p, 'not a dispatcher + handlers machine with a finaliser state')
+            continue
+        n += 1
+        statemach.check(ctx, f, p)
+    ctx.floor('finaliser-bypass', 'join stream state machines with a finaliser state', n, 1)
 
 
 def check_build_join_schema(ctx):
